@@ -140,5 +140,26 @@ theorem refSendReset_sr (h : Evolves SRel RInv a s.store) (id : Nat) (r : Reason
   unfold Streams.refSendReset; ev
 macro_rules | `(tactic| ev_step) => `(tactic| with_reducible apply refSendReset_sr)
 
+theorem Evolves.remove_inserted {P : Stream → Stream → Prop} {N : Stream → Prop} [Good P N] {S b : Store} (x : Stream)
+    (h0 : Evolves P N a S) (h : Evolves P N a b) : Evolves P N a (b.remove (S.insert x).2) :=
+  Evolves.remove_new h0 h _ (Nat.le_refl _)
+
+theorem sendRequest_sr (h : Evolves SRel RInv a s.store) (isHead : Bool) (f : List Hpack.Field) (eos : Bool) (p : Option Nat) :
+    Evolves SRel RInv a (s.sendRequest isHead f eos p).1.store := by
+  unfold Streams.sendRequest; ev
+  all_goals try (refine Evolves.insert (by assumption) _ (RInv.of_nil ?_); cases isHead <;> rfl)
+  all_goals
+    refine Evolves.remove_inserted _ (by assumption) ?_
+    ev
+macro_rules | `(tactic| ev_step) => `(tactic| with_reducible apply sendRequest_sr)
+
+theorem refSendPushPromise_sr (h : Evolves SRel RInv a s.store) (p : Nat) (v : Bool) (f : List Hpack.Field) :
+    Evolves SRel RInv a (s.refSendPushPromise p v f).1.store := by
+  unfold Streams.refSendPushPromise Streams.sendReserveLocal; ev
+  all_goals
+    refine Evolves.remove_inserted _ (by assumption) ?_
+    ev
+macro_rules | `(tactic| ev_step) => `(tactic| with_reducible apply refSendPushPromise_sr)
+
 end
 end H2V.Lemmas.ConnResetP
